@@ -1,5 +1,7 @@
 package vf
 
+import "fmt"
+
 // d1Spaces returns the shared container state spaces (DESIGN §4.4) with the given oracle set.
 // bias selects the value alphabet: "edge" (sizes at the inline limit / half slab), "aux" (what
 // allocates auxiliary slabs), "kinds" (every CBOR width, wrappers, nested containers).
@@ -50,10 +52,10 @@ func d1Spaces(r *Run, oracles []string, bias string) (closure []Spec, traj []Spe
 		acl = []string{"t", "limA+"}
 		mcl = []string{"t", "limM+"}
 	}
-	step, amax, mmax := 3, 70, 64
+	step, amax, mmax := 3, 70, 90
 	Ts := []uint32{256}
 	if r.Thorough() {
-		step, amax, mmax = 1, 100, 90
+		step, amax, mmax = 1, 100, 120
 		Ts = []uint32{256, 512}
 	}
 	for _, T := range Ts {
@@ -75,6 +77,30 @@ func d1Spaces(r *Run, oracles []string, bias string) (closure []Spec, traj []Spe
 	return closure, traj
 }
 
+// collSpecs: one closure per digest assignment of 3 keys (inline and external collision groups,
+// groups on deeper levels, digest-less lists) with the given oracles.
+func collSpecs(r *Run, oracles []string, classes []string) []Spec {
+	var cs []Spec
+	for ai, a := range DigestAssignments(3) {
+		cs = append(cs, Spec{Name: fmt.Sprintf("coll-T256-a%d", ai), Kind: "coll", T: 256, Keys: 3, Classes: classes,
+			Oracles: oracles, Digests: a, Limit: 255, Extra: map[string]int{"limit": 1}})
+	}
+	return cs
+}
+
+// nestedFor returns the nested-container universe (children mutated through handles) with the given oracles.
+func nestedFor(r *Run, oracles []string) []Spec {
+	specs := nestedSpecs(r, false, oracles)
+	var out []Spec
+	for _, sp := range specs {
+		if !r.Thorough() && (sp.Name == "nested-arr-root" || sp.Name == "nested-map-root") {
+			sp.Extra["nosettype"] = 1
+		}
+		out = append(out, sp)
+	}
+	return out
+}
+
 func d1Assumptions() []string {
 	return []string{
 		"closure results hold for every history that stays inside the bounded universe (element/key bound, value size classes); trajectory neighbourhoods are depth-bounded around cold-started seed states",
@@ -90,6 +116,8 @@ func init() {
 		cl, tr := d1Spaces(r, or, "edge")
 		r.ExploreSpecs(cl)
 		r.ExploreSpecs(tr)
+		r.ExploreSpecs(collSpecs(r, or, []string{"t", "s60", "limM"}))
+		r.ExploreSpecs(nestedFor(r, or))
 		sweepSlabSizes(r)
 	}})
 	RegisterCheck(&CheckDef{ID: "C06", Level: "model_checking", Run: func(r *Run) {
@@ -99,6 +127,8 @@ func init() {
 		cl, tr := d1Spaces(r, or, "kinds")
 		r.ExploreSpecs(cl)
 		r.ExploreSpecs(tr)
+		r.ExploreSpecs(collSpecs(r, or, []string{"t", "s60", "A:t"}))
+		r.ExploreSpecs(nestedFor(r, append([]string{"events"}, or...)))
 	}})
 	RegisterCheck(&CheckDef{ID: "C07", Level: "model_checking", Run: func(r *Run) {
 		r.Rule = "explicit-state BFS over array/map/nested spaces; every register produced by a commit after every transition is decoded and re-encoded (byte identity), its decoded content is compared element-by-element with the in-memory slab (except compact maps), and the three header flags are compared with the harness's own reading of the content"
@@ -107,6 +137,8 @@ func init() {
 		cl, tr := d1Spaces(r, or, "kinds")
 		r.ExploreSpecs(cl)
 		r.ExploreSpecs(tr)
+		r.ExploreSpecs(collSpecs(r, or, []string{"t", "s60", "A:t"}))
+		r.ExploreSpecs(nestedFor(r, append([]string{"events"}, or...)))
 	}})
 	RegisterCheck(&CheckDef{ID: "C09", Level: "model_checking", Run: func(r *Run) {
 		r.Rule = "explicit-state BFS over array/map/nested spaces biased to auxiliary slabs (externalised values/keys, children crossing the inline limit, splits/merges/promotions, bulk pops); the harness disposes of every value handed back; after every transition and again after commit: IDs in (write set ∪ ledger) == IDs reachable by an independent traversal from the live roots, every slab referenced once, one owner per tree; CheckStorageHealth must agree after reopen"
@@ -115,5 +147,7 @@ func init() {
 		cl, tr := d1Spaces(r, or, "aux")
 		r.ExploreSpecs(cl)
 		r.ExploreSpecs(tr)
+		r.ExploreSpecs(collSpecs(r, or, []string{"t", "s60", "limM+"}))
+		r.ExploreSpecs(nestedFor(r, or))
 	}})
 }
